@@ -26,6 +26,7 @@
 -/
 import EasyMl.Lemmas.TapeProg
 import EasyMl.Lemmas.TapeNode
+import EasyMl.Lemmas.TapeFast
 import EasyMl.Lemmas.Prog
 import EasyMl.Lemmas.RealBridge
 
@@ -345,6 +346,33 @@ theorem independent_inputs_zero (p : Prog R) (hp : p.WellScoped) (hd : DivOK p) 
 
 example : Prog.isInput ([.var, .const 3, .var, .arith .mul 0 1] : Prog R) 2 = true := rfl
 example : (Prog.reach ([.var, .const 3, .var, .arith .mul 0 1] : Prog R) 2).getD 3 false = false := rfl
+
+/-- **The array-backed evaluation used for large cases is the model.**  The drivers answer cases
+    with tens of thousands of tape entries with the `Array` functions of Model/TapeFast.lean (the
+    list-based definitions are quadratic); they compute exactly the functions the theorems above
+    are about: values, formal derivatives, dependency flags and the forward gradient of the
+    specification; the reverse sweep (same entries, same bounds checks, same panics); and one
+    instruction on tape 0 — same record or panic, and the array tape holds tape 0's new entries —
+    whenever the array holds tape 0 and the records are constants or on tape 0 (which every
+    instruction preserves, `exec_frame`). -/
+theorem fast_path_agrees :
+    (∀ (env : Nat → R) (vs : Array R) (ins : Instr R), Fast.fval env vs ins = ins.val env vs.toList) ∧
+    (∀ (seed : Nat → R) (vs ts : Array R) (ins : Instr R),
+      Fast.ftan seed vs ts ins = ins.tan seed vs.toList ts.toList) ∧
+    (∀ (ds : Array Bool) (ins : Instr R), Fast.fdep ds ins = ins.dep ds.toList) ∧
+    (∀ (env : Nat → R) (prog : Array (Instr R)) (i : Nat),
+      (Fast.fgrad env prog i).toList = Prog.grad env prog.toList i) ∧
+    (∀ (ops : Array (Op R)) (index : Nat),
+      Fast.toL (Fast.freverseSweep ops index) = reverseSweep ops.toList index) ∧
+    (∀ (env : Nat → R) (recs : Array (Rec R)) (tape : Array (Op R)) (w : World R) (ins : Instr R),
+      tape.toList = w 0 → (∀ k, OnTape 0 (getRec recs.toList k)) →
+      (Fast.fexec env recs tape ins).2 = (ins.exec 0 env recs.toList w).2 ∧
+      (Fast.fexec env recs tape ins).1.toList = (ins.exec 0 env recs.toList w).1 0) :=
+  ⟨Fast.fval_eq, Fast.ftan_eq, Fast.fdep_eq, Fast.fgrad_eq, Fast.freverseSweep_eq,
+    fun env recs tape w ins ht hr => Fast.fexec_eq env recs tape w ins ht hr⟩
+
+example : (#[⟨0, 0, 0, 0⟩] : Array (Op R)).toList = (World.empty.update 0 [⟨0, 0, 0, 0⟩] : World R) 0 :=
+  rfl
 
 /-! ### the analytic meaning over ℝ -/
 
